@@ -64,3 +64,14 @@ Theorem C20_format_legacy_refuted :
     /\ apply_edits t es <> Some (w_fix tt t).
 Proof. exact format_faithful_legacy_refuted. Qed.
 Print Assumptions C20_format_legacy_refuted.
+
+(** The server as it was before the second repair kept the templater chosen at start-up: after a
+    configuration save that switches the templater, the published diagnostics were not the lint under
+    the latest configuration. *)
+Theorem C20_legacy_templater_refuted :
+  exists (lint2 : N -> N -> text -> list viol) fixer c0 (ops : list (op N)) u t,
+    a_docs (arun N (ainit N c0) ops) u = Some t
+    /\ last_publish u (outputs N (lint2 c0) fixer format_edit (init N c0) ops)
+       <> Some (map to_diag (lint2 (a_conf (arun N (ainit N c0) ops)) (a_conf (arun N (ainit N c0) ops)) t)).
+Proof. exact diag_latest_legacy_templater_refuted. Qed.
+Print Assumptions C20_legacy_templater_refuted.
